@@ -43,54 +43,44 @@ pub enum Val {
     Other,
 }
 
-#[derive(Clone, Copy)]
-pub enum Held {
-    None,
-    I(i32),
-    Trace(TraceId),
-    Span(SpanId),
-}
-
-/// One frame's worth of ambient properties: at most one value per pool key.
+/// One frame's worth of ambient properties: at most one value per pool key. Plain fields (no arrays,
+/// no loops): CBMC's field-sensitive SSA handles this far better than an indexed array of enums.
 #[derive(Clone, Copy)]
 pub struct ArrProps {
-    pub slot: [Held; 6],
+    pub a: Option<i32>,
+    pub b: Option<i32>,
+    pub trace: Option<TraceId>,
+    pub span: Option<SpanId>,
+    pub parent: Option<SpanId>,
 }
 
 impl ArrProps {
-    pub const EMPTY: ArrProps = ArrProps { slot: [Held::None; 6] };
+    pub const EMPTY: ArrProps = ArrProps { a: None, b: None, trace: None, span: None, parent: None };
 
     pub fn view(&self) -> [Val; 6] {
-        let mut v = [Val::None; 6];
-        let mut i = 0;
-        while i < 6 {
-            v[i] = match self.slot[i] {
-                Held::None => Val::None,
-                Held::I(x) => Val::I(x),
-                Held::Trace(t) => Val::Trace(t.to_u128()),
-                Held::Span(s) => Val::Span(s.to_u64()),
-            };
-            i += 1;
-        }
-        v
+        [
+            match self.a { Some(x) => Val::I(x), None => Val::None },
+            match self.b { Some(x) => Val::I(x), None => Val::None },
+            match self.trace { Some(t) => Val::Trace(t.to_u128()), None => Val::None },
+            match self.span { Some(s) => Val::Span(s.to_u64()), None => Val::None },
+            match self.parent { Some(s) => Val::Span(s.to_u64()), None => Val::None },
+            Val::None,
+        ]
     }
 
     /// Collect any `Props` (first value for a key wins). The value's type is chosen by the KEY (ids under
-    /// the id keys, i32 under a/b): no speculative casts, which would send CBMC through value-bag's
-    /// text-parsing fallbacks.
+    /// the id keys, i32 under a/b): typed downcasts only - no speculative casts, which would send CBMC
+    /// through value-bag's text-parsing fallbacks (ids that arrive as TEXT are therefore not held by this context).
     pub fn collect<P: Props>(props: P) -> ArrProps {
         let mut out = ArrProps::EMPTY;
         let _ = props.for_each(|k, v| {
-            let i = key_idx(k.get());
-            if i < 6 {
-                if let Held::None = out.slot[i] {
-                    out.slot[i] = match i {
-                        K_TRACE => match v.downcast_ref::<TraceId>() { Some(t) => Held::Trace(*t), None => match v.cast::<TraceId>() { Some(t) => Held::Trace(t), None => Held::None } },
-                        K_SPAN | K_PARENT => match v.downcast_ref::<SpanId>() { Some(s) => Held::Span(*s), None => match v.cast::<SpanId>() { Some(s) => Held::Span(s), None => Held::None } },
-                        K_A | K_B => match v.cast::<i32>() { Some(x) => Held::I(x), None => Held::None },
-                        _ => Held::None,
-                    };
-                }
+            match k.get() {
+                "a" => if out.a.is_none() { out.a = v.cast::<i32>(); },
+                "b" => if out.b.is_none() { out.b = v.cast::<i32>(); },
+                "trace_id" => if out.trace.is_none() { out.trace = v.downcast_ref::<TraceId>().copied(); },
+                "span_id" => if out.span.is_none() { out.span = v.downcast_ref::<SpanId>().copied(); },
+                "span_parent" => if out.parent.is_none() { out.parent = v.downcast_ref::<SpanId>().copied(); },
+                _ => {}
             }
             ControlFlow::Continue(())
         });
@@ -100,16 +90,11 @@ impl ArrProps {
 
 impl Props for ArrProps {
     fn for_each<'kv, F: FnMut(Str<'kv>, Value<'kv>) -> ControlFlow<()>>(&'kv self, mut for_each: F) -> ControlFlow<()> {
-        let mut i = 0;
-        while i < 6 {
-            match self.slot[i] {
-                Held::None => {}
-                Held::I(ref x) => for_each(Str::new(KEYS[i]), x.to_value())?,
-                Held::Trace(ref t) => for_each(Str::new(KEYS[i]), t.to_value())?,
-                Held::Span(ref s) => for_each(Str::new(KEYS[i]), s.to_value())?,
-            }
-            i += 1;
-        }
+        if let Some(ref x) = self.a { for_each(Str::new("a"), x.to_value())?; }
+        if let Some(ref x) = self.b { for_each(Str::new("b"), x.to_value())?; }
+        if let Some(ref t) = self.trace { for_each(Str::new("trace_id"), t.to_value())?; }
+        if let Some(ref s) = self.span { for_each(Str::new("span_id"), s.to_value())?; }
+        if let Some(ref s) = self.parent { for_each(Str::new("span_parent"), s.to_value())?; }
         ControlFlow::Continue(())
     }
     fn is_unique(&self) -> bool { true }
@@ -134,7 +119,10 @@ impl Ctxt for ArrCtxt {
     // open_push / open_disabled: the trait's DEFAULT methods (code under test)
     fn enter(&self, frame: &mut ArrProps) {
         self.enters.set(self.enters.get() + 1);
-        core::mem::swap(&mut *self.cur.borrow_mut(), frame);
+        let mut cur = self.cur.borrow_mut();
+        let tmp = *cur;
+        *cur = *frame;
+        *frame = tmp;
     }
     fn with_current<R, F: FnOnce(&ArrProps) -> R>(&self, with: F) -> R {
         let cur = *self.cur.borrow();
@@ -142,7 +130,10 @@ impl Ctxt for ArrCtxt {
     }
     fn exit(&self, frame: &mut ArrProps) {
         self.exits.set(self.exits.get() + 1);
-        core::mem::swap(&mut *self.cur.borrow_mut(), frame);
+        let mut cur = self.cur.borrow_mut();
+        let tmp = *cur;
+        *cur = *frame;
+        *frame = tmp;
     }
     fn close(&self, _: ArrProps) {}
 }
@@ -248,4 +239,12 @@ pub fn span_hex_unreachable<D: core::fmt::Display>(_hex: D) -> Result<SpanId, em
 
 pub fn parse_unreachable<'v, T: core::str::FromStr>(_v: &Value<'v>) -> Option<T> where Value<'v>: Sized {
     panic!("text fallback Value::parse reached although the value is typed")
+}
+
+pub fn u128_from_value_unreachable<'v>(_v: Value<'v>) -> Option<u128> where Value<'v>: Sized {
+    panic!("integer fallback of TraceId::from_value reached although the value is typed")
+}
+
+pub fn u64_from_value_unreachable<'v>(_v: Value<'v>) -> Option<u64> where Value<'v>: Sized {
+    panic!("integer fallback of SpanId::from_value reached although the value is typed")
 }
